@@ -4,7 +4,7 @@ HARNESS = "harness/c12_seqstart.py"
 MODE = "src"
 EXHAUSTIVE = True      # the whole finite input space is one symbolic query family (decided, not enumerated)
 EXPLANATION = "The whole outcome space of every random draw is symbolic (one solver variable per randrange call, constrained by its contract)."
-BOUNDS = {"quick": "every outcome of every random draw of the three generate() functions (57,751 + 442,764 + 240 outcomes, all at once)",
+BOUNDS = {"quick": "every outcome of every random draw of the three generate() functions (57,751 + 442,764 + 240 outcomes, all at once); a second generation after each kind was generated once (7 draws symbolic)",
           "thorough": "same (the space is finite and fully symbolic)"}
 OUTSIDE = "random sources that violate randrange's documented contract"
 ASSUMPTIONS = []
